@@ -3,6 +3,7 @@ package props
 import (
 	"fmt"
 	"os"
+	"path/filepath"
 	"testing"
 
 	"verif/harness/core"
@@ -18,6 +19,14 @@ func TestMain(m *testing.M) {
 		fmt.Fprintf(os.Stderr, "HARNESS-ERROR: %v\n", err)
 		os.Exit(3)
 	}
+	// The client's DEFAULT tls.Config (no RootCAs) is what C07 tests: make the harness CA the only
+	// system root before any verification happens (Go's Linux root loader honours these variables).
+	ca, _ := pki()
+	caFile := filepath.Join(env.Dir, "harness-ca.pem")
+	_ = os.WriteFile(caFile, ca.PEM(), 0o644)
+	_ = os.Mkdir(filepath.Join(env.Dir, "nocerts"), 0o755)
+	_ = os.Setenv("SSL_CERT_FILE", caFile)
+	_ = os.Setenv("SSL_CERT_DIR", filepath.Join(env.Dir, "nocerts"))
 	_ = os.RemoveAll("testdata/rapid")
 	code := m.Run()
 	env.Close()
